@@ -1129,8 +1129,9 @@ func c06closereadYield(p *Program, r *Report, rule string) {
 // received close frame is (C10.echo); the close frame of a failure close (writeError: protocol error, message too big)
 // is written by writeClose under context.Background() + 5 s — the read's context is not consulted for up to 5 s.
 func c10readside(p *Program, r *Report, rule string) {
-	fn := p.Func("Conn.writeError")
+	fn := p.FuncOpt("Conn.writeError")
 	if fn == nil {
+		r.Note("%s: Conn.writeError is not a function of this tree (inlined); the recorded finding is about that function", rule)
 		return
 	}
 	p.forAllPaths(r, rule, fn, "close frame bounded by the read's context", Opts{},
